@@ -27,7 +27,7 @@ def srvCfg (c : Cfg) : ServerConn.Cfg :=
 
 def proxyCfg (c : Cfg) (name : Bytes) : Proxy.Cfg :=
   { name := name, badSourceIsIgnored := c.badSourceIsIgnored, removeComparesIdentity := c.removeComparesIdentity,
-    errReportSelectsOnCtx := c.errReportSelectsOnCtx }
+    errReportSelectsOnCtx := c.errReportSelectsOnCtx, emptyNextIsNoRoute := c.emptyNextIsNoRoute }
 
 def demuxCfg (c : Cfg) (key : Env → Bytes) : Demux.Cfg :=
   { demuxOn := key, cancelUsesDone := c.demuxCancelUsesDone, handoffSelects := c.demuxHandoffSelects }
